@@ -147,6 +147,20 @@ func (vc *VC) loopHeader(fr *frame, n *Node, phis []*ssa.Phi, entryVals map[*ssa
 		}
 		vc.havocFresh(n.st, preSt, mods)
 	}
+	// visited-set ghosts of range-over-map statements iterated inside this loop are loop-carried state
+	if !mods.all {
+		for b := range l.blocks {
+			for _, in := range b.Instrs {
+				if nx, ok := in.(*ssa.Next); ok && !nx.IsString {
+					if rg, ok := nx.Iter.(*ssa.Range); ok {
+						if g := vc.rangeGhosts[rg]; g != nil {
+							n.st.mem[g.name] = vc.decl(g.name+".h", e.mapMemSorts[g.name])
+						}
+					}
+				}
+			}
+		}
+	}
 	hv := map[*ssa.Phi]Val{}
 	for _, phi := range phis {
 		v := vc.havocVal(n, phi, n.st)
@@ -272,7 +286,15 @@ func (vc *VC) loopCtx(fr *frame, l *LoopInfo, hdr, envNode *Node, phiVals map[*s
 		return vc.resolveAtHeader(fr, l, hdr, envNode, phiVals, st, name)
 	}
 	entryLookup := func(name string) (Val, bool) { return vc.paramLookup(fr, name) }
-	return &SpecCtx{vc: vc, lookup: lookup, st: st, oldSt: fr.entrySt, oldLookup: entryLookup, pkg: fr.fn.Pkg.Pkg, fnName: fr.fn.Name(), fr: fr}
+	ctx := &SpecCtx{vc: vc, lookup: lookup, st: st, oldSt: fr.entrySt, oldLookup: entryLookup, pkg: fr.fn.Pkg.Pkg, fnName: fr.fn.Name(), fr: fr}
+	for _, in := range l.header.Instrs {
+		if nx, ok := in.(*ssa.Next); ok && !nx.IsString {
+			if rg, ok := nx.Iter.(*ssa.Range); ok {
+				ctx.vis = vc.rangeGhosts[rg]
+			}
+		}
+	}
+	return ctx
 }
 
 func (vc *VC) evalLoopClauseAt(fr *frame, l *LoopInfo, hdr, envNode *Node, phiVals map[*ssa.Phi]Val, st *State, ex Expr) (string, error) {
@@ -678,6 +700,19 @@ func (vc *VC) execInstr(fr *frame, n *Node, in ssa.Instruction) bool {
 		a := val(x.X)
 		// iterator: remember the ranged value
 		n.env[x] = Val{T: a.T, Typ: x.X.Type()}
+		if mt, ok := x.X.Type().Underlying().(*types.Map); ok {
+			if vc.rangeGhosts == nil {
+				vc.rangeGhosts = map[*ssa.Range]*rangeGhost{}
+			}
+			vc.nameCount["vis"]++
+			g := &rangeGhost{name: fmt.Sprintf("vis.%s.%d", x.Name(), vc.nameCount["vis"]), mapT: a.T, mt: mt}
+			ks := e.sortOf(mt.Key())
+			e.mapMems(mt)
+			e.mapMemSorts[g.name] = fmt.Sprintf("(Array %s Bool)", ks)
+			st.mem[g.name] = fmt.Sprintf("((as const (Array %s Bool)) false)", ks)
+			g.st = st.clone()
+			vc.rangeGhosts[x] = g
+		}
 	case *ssa.Next:
 		vc.execNext(fr, n, x)
 	case *ssa.Call:
@@ -1018,7 +1053,89 @@ func (vc *VC) execNext(fr *frame, n *Node, x *ssa.Next) {
 	vc.assume(implies(ok, vc.mapHas(n.st, mt, it.T, k)))
 	vc.assume(e.wellFormed(v, mt.Elem(), n.st.wm))
 	n.env[x] = Val{Elems: []Val{{T: ok, Typ: boolT}, {T: k, Typ: mt.Key()}, {T: v, Typ: mt.Elem()}}}
-	vc.enc.notes["range over map: each iteration sees an arbitrary present key (no visited-set reasoning)"] = true
+	rg, _ := x.Iter.(*ssa.Range)
+	g := vc.rangeGhosts[rg]
+	if g == nil {
+		vc.enc.notes["range over map: each iteration sees an arbitrary present key (no visited-set reasoning)"] = true
+		return
+	}
+	vis := vc.memAtByName(n.st, g.name)
+	// the key produced now was not produced before
+	vc.assume(implies(ok, not(fmt.Sprintf("(select %s %s)", vis, k))))
+	n.st.mem[g.name] = vc.def(g.name, e.mapMemSorts[g.name], fmt.Sprintf("(store %s %s true)", vis, k))
+	if why := vc.loopMayDelete(fr, n, mt); why != "" {
+		vc.enc.notes["range over map at "+vc.pos(x.Pos())+": no exhaustiveness assumption at loop exit ("+why+")"] = true
+	} else {
+		ks := e.sortOf(mt.Key())
+		had := vc.mapHas(g.st, mt, g.mapT, "kk")
+		vc.assume(implies(n.reach, implies(not(ok), fmt.Sprintf("(forall ((kk %s)) (! (=> %s (select %s kk)) :pattern ((select %s kk)) :pattern (%s)))", ks, had, vis, vis, had))))
+		vc.enc.notes["range over map: every iteration produces a present key not produced before; when the loop ends every key present at its start has been produced (the loop does not delete from a map of this type)"] = true
+	}
+}
+
+// loopMayDelete: can the loop around this range-over-map header delete entries from a map of type mt? Then the
+// "every key was produced" assumption at loop exit would be unsound. Conservative: any delete builtin in the loop,
+// any call whose mod-set touches maps of this type or is unknown.
+func (vc *VC) loopMayDelete(fr *frame, n *Node, mt *types.Map) string {
+	l := n.loop
+	if l == nil {
+		l = fr.innermostLoop(n.blk)
+	}
+	if l == nil {
+		return "not a loop header"
+	}
+	tk := typeKey(mt)
+	for b := range l.blocks {
+		for _, in := range b.Instrs {
+			ci, ok := in.(ssa.CallInstruction)
+			if !ok {
+				continue
+			}
+			if _, isGo := in.(*ssa.Go); isGo {
+				return "goroutine started in the loop"
+			}
+			c := ci.Common()
+			if bi, ok := c.Value.(*ssa.Builtin); ok {
+				if bi.Name() == "delete" || bi.Name() == "clear" {
+					return "the loop calls " + bi.Name()
+				}
+				continue
+			}
+			callee := c.StaticCallee()
+			if callee == nil {
+				if _, isMC := c.Value.(*ssa.MakeClosure); !isMC {
+					// dynamic call: an interface method or function value; could it reach this map? only through memory
+					// it can reach — be conservative for in-module map types
+					if c.IsInvoke() || true {
+						if fvPure(fr, c) {
+							continue
+						}
+						return "dynamic call in the loop"
+					}
+				}
+				continue
+			}
+			if callee.Pkg == nil || !strings.HasPrefix(callee.Pkg.Pkg.Path(), modPath) {
+				continue // library functions do not see pprof's maps except through arguments of map type
+			}
+			ms := vc.prog.ModSetOf(callee)
+			if ms.all {
+				return "call of " + callee.Name() + " with unknown effects"
+			}
+			if _, touches := ms.maps[tk]; touches {
+				return "call of " + callee.Name() + " may update maps of this type"
+			}
+		}
+	}
+	return ""
+}
+
+// fvPure: a call of a function-typed parameter in a function whose contract declares funcvalues=pure
+func fvPure(fr *frame, c *ssa.CallCommon) bool {
+	if c.IsInvoke() {
+		return false
+	}
+	return fr.fc != nil && fr.fc.Options["funcvalues"] == "pure"
 }
 
 func (vc *VC) ignorableDefer(x *ssa.Defer) bool {
